@@ -498,13 +498,17 @@ Definition observe (fd : dtype) (c : cell) : obs :=
 
 (* implementation side: IV v = exact value read, IP = all bytes poison, IG = anything else
    (non-integral, nan, inf) *)
-Inductive iobs := IV (v : value) | IP | IG.
+(* IPV v: the bytes equal the poison pattern, which for this dtype also spells the exact value v
+   (e.g. int8 -91 = 0xA5): indistinguishable, so it agrees with "never written" and with "holds v" *)
+Inductive iobs := IV (v : value) | IP | IG | IPV (v : value).
 
 Definition agree (m : obs) (i : iobs) : bool :=
   match m, i with
   | OAny, _ => true
   | OPoison, IP => true
+  | OPoison, IPV _ => true
   | OVal v, IV w => value_eqb v w
+  | OVal v, IPV w => value_eqb v w
   | _, _ => false
   end.
 
